@@ -68,6 +68,9 @@ def is_string_form(rt, tup):
             return True
         if x[0] == "slice" and un(x[1]) and x[2] == ("const", 2) and x[3] in (("const", None), None) and (len(x) < 5 or x[4] in (("const", None), None)):
             return True
+        if x[0] == "method" and x[1] == "removeprefix" and un(x[2]) and x[3] == (("const", "//"),):
+            # s.removeprefix('//') is `s[2:] if s.startswith('//') else s`
+            return True
         if x[0] == "phi":
             return form(x[2]) and form(x[3]) and all(un(y) for y in P.subterms(x[1]) if y[0] == "call" and y[1] == "urllib.parse.urlunsplit")
         return False
